@@ -186,6 +186,104 @@ def handleTrTok : List String → Option String
       " ".intercalate (r.2.1.map showTok) ++ " | " ++ toString r.2.2.length) (save_token [] ps))
   | _ => none
 
+def parseTType : String → Option Tokenizer.TType
+  | "OPERAND" => some .OPERAND | "FUNC" => some .FUNC | "ARRAY" => some .ARRAY | "PAREN" => some .PAREN
+  | "SEP" => some .SEP | "PRE" => some .OP_PRE | "IN" => some .OP_IN | "POST" => some .OP_POST | _ => none
+
+def parseSubT : String → Option Tokenizer.SubT
+  | "_" => some .none | "TEXT" => some .TEXT | "ERROR" => some .ERROR | "LOGICAL" => some .LOGICAL | "NR" => some .NR
+  | "OPEN" => some .OPEN | "CLOSE" => some .CLOSE | "ARG" => some .ARG | "ROW" => some .ROW | _ => none
+
+/-- a token as `Drv/Tokenizer.showTok` prints it: `<text>/<type>/<subtype>` -/
+def parseTok (w : String) : Option Tokenizer.Tok :=
+  match w.splitOn "/" with
+  | [v, t, s] => do
+    let v ← parseText v; let t ← parseTType t; let s ← parseSubT s
+    pure ⟨v, t, s⟩
+  | _ => none
+
+/-- the state of a `Tokenizer` instance: formula, offset, items, token_stack, token (pieces) -/
+structure TokState where
+  formula : Text
+  offset : Int
+  items : List Tokenizer.Tok
+  stack : List Tokenizer.Tok
+  pieces : List Text
+
+/-- `<formula> <offset> <n> <item>* <n> <stack token>* <n> <piece>*` -/
+def parseTokState (ws : List String) : Option TokState :=
+  match ws with
+  | f :: o :: n :: rest => do
+    let f ← parseText f; let o ← o.toInt?; let n ← n.toNat?
+    let items ← (rest.take n).mapM parseTok
+    match rest.drop n with
+    | m :: rest => do
+      let m ← m.toNat?
+      let stack ← (rest.take m).mapM parseTok
+      match rest.drop m with
+      | k :: rest => do
+        let k ← k.toNat?
+        let pieces ← (rest.take k).mapM parseText
+        if rest.length = k ∧ (items.length = n ∧ stack.length = m) then pure ⟨f, o, items, stack, pieces⟩ else none
+      | _ => none
+    | _ => none
+  | _ => none
+
+def showTokState (ret : String) (s : TokState) : String :=
+  " ".intercalate ([ret, toString s.offset, "I"] ++ s.items.map showTok ++ ["S"] ++ s.stack.map showTok ++ ["P"] ++
+    s.pieces.map showText)
+
+/-- `<method> <state>`: one method of the `Tokenizer` (translated from the source) on a harness-made instance; reply
+    `ok <returned value> <offset> I <items> S <token_stack> P <pieces of self.token>` -/
+def handleTrTokMethod : List String → Option String
+  | m :: rest => do
+    let s ← parseTokState rest
+    let showI := fun (i : Int) => toString i
+    match m with
+    | "sci" => pure (showPyM (fun (r : Bool × Int × List Text) =>
+        showTokState (if r.1 then "1" else "0") { s with offset := r.2.1, pieces := r.2.2 })
+        (check_scientific_notation s.formula s.offset s.pieces))
+    | "string" => pure (showPyM (fun (r : Int × List Tokenizer.Tok × List Text) =>
+        showTokState (showI r.1) { s with items := r.2.1, pieces := r.2.2 }) (parse_string s.formula s.offset s.items s.pieces))
+    | "error" => pure (showPyM (fun (r : Int × List Tokenizer.Tok) =>
+        showTokState (showI r.1) { s with items := r.2 }) (parse_error s.formula s.offset s.items s.pieces))
+    | "operator" => pure (showPyM (fun (r : Int × List Tokenizer.Tok) =>
+        showTokState (showI r.1) { s with items := r.2 }) (parse_operator s.formula s.offset s.items))
+    | "opener" => pure (showPyM (fun (r : Int × List Tokenizer.Tok × List Tokenizer.Tok × List Text) =>
+        showTokState (showI r.1) { s with items := r.2.1, stack := r.2.2.1, pieces := r.2.2.2 })
+        (parse_opener s.formula s.offset s.items s.stack s.pieces))
+    | "closer" => pure (showPyM (fun (r : Int × List Tokenizer.Tok × List Tokenizer.Tok) =>
+        showTokState (showI r.1) { s with items := r.2.1, stack := r.2.2 }) (parse_closer s.formula s.offset s.items s.stack))
+    | "separator" => pure (showPyM (fun (r : Int × List Tokenizer.Tok) =>
+        showTokState (showI r.1) { s with items := r.2 }) (parse_separator s.formula s.offset s.items s.stack))
+    | "parse" => pure (showPyM (fun (r : Unit × Int × List Tokenizer.Tok × List Tokenizer.Tok × List Text) =>
+        showTokState "-" { s with offset := r.2.1, items := r.2.2.1, stack := r.2.2.2.1, pieces := r.2.2.2.2 })
+        (parse s.formula s.offset s.items s.stack s.pieces))
+    | _ => none
+  | _ => none
+
+/-- the `Token` constructors translated from the source: `subexp <text> <func 0|1>`, `closer <token>`, `separator <text>` -/
+def handleTrToken : List String → Option String
+  | ["subexp", v, f] => do
+    let v ← parseText v; let f ← parseBool f
+    pure (showPyM showTok (make_subexp v f))
+  | ["closer", t] => do
+    let t ← parseTok t
+    pure (showPyM showTok (get_closer t))
+  | ["separator", v] => do
+    let v ← parseText v
+    pure (showPyM showTok (make_separator v))
+  | _ => none
+
+/-- `tokenize <text>` as `Drv/Tokenizer.lean`: `Tokenizer(text).items` through the translated `parse` (what `__init__` does:
+    the five attributes set to the text, 0 and three empty lists, then `parse()`) -/
+def handleTrTokenize : List String → Option String
+  | ["tokenize", s] => do
+    let s ← parseText s
+    pure (showPyM (fun (r : Unit × Int × List Tokenizer.Tok × List Tokenizer.Tok × List Text) =>
+      " ".intercalate (r.2.2.1.map showTok)) (parse s 0 [] [] []))
+  | _ => none
+
 /-- the operators of `Py/Trans.lean` themselves, so that the meaning the translator gives to `& | << >> // %` and
     `int(a / b)` / `int(ceil(a / c))` is compared with CPython on signed operands -/
 def handlePyOps : List String → Option String
@@ -222,6 +320,9 @@ def trDispatch (line : String) : String :=
     | "edit" :: rest => handleTrEdit rest
     | "cache" :: rest => handleTrCache rest
     | "tokbuf" :: rest => handleTrTok rest
+    | "tokm" :: rest => handleTrTokMethod rest
+    | "token" :: rest => handleTrToken rest
+    | "tok" :: rest => handleTrTokenize rest
     | _ => none
   match r with
   | some s => s
